@@ -2,7 +2,12 @@
 EXTENDS Split, Json, IOUtils
 CONSTANTS MaxChars
 MCStrs   == StrsUpTo({CA, <<44>>, CNT}, MaxChars)
-MCDelims == {<<44>>, CA, <<44, 44>>, <<97, 44>>, CNT, <<>>, <<97, 97>>}
+MCDelims == {<<44>>, CA, <<44, 44>>, <<97, 44>>, CNT, <<>>, <<97, 97>>, <<97, 97, 44>>, <<97, 44, 97>>}
+\* second family: characters at the ends of every encoded width (lead bytes 7F C2 DF E0 ED EE EF F0 F4),
+\* split at every character (empty delimiter) or at one of them
+EdgeStrs   == StrsUpTo(EdgeChars, 2) \cup {Concat(<<x, CA, y>>) : x, y \in EdgeChars}
+EdgeDelims == {<<>>, Encode(65535), Encode(128)}
+MCPairs  == (MCStrs \X MCDelims) \cup (EdgeStrs \X EdgeDelims)
 Line == [m |-> "Split", kind |-> kind, s |-> s, d |-> d, path |-> hist, fwd |-> fwd,
          st |-> [lo |-> lo, hi |-> hi, fin |-> IF phase = "Finished" THEN 1 ELSE 0],
          cn |-> IF CanNext THEN 1 ELSE 0, cb |-> IF CanNextBack THEN 1 ELSE 0,
